@@ -247,7 +247,11 @@ def gen_secret(r, cls, length=None, like=None):
     if cls == "j9p-l1":    # a Juniper plaintext with Latin-1 letters (bytes >= 0x80 that are not valid UTF-8 on their own)
         n = length or r.randint(10, 13)
         base = [r.choice(GZ + "GHJKLMNPQRSTUVWXYZ23456789") for _ in range(n)]
-        for i in r.sample(range(1, n - 1), 2):
+        # (the paired value has its Latin-1 letters at the same positions: where such a plaintext also stands in clear, the
+        # two worlds' files then have multi-byte characters at the same byte offsets - non-ASCII clear text is outside C07's
+        # quantifier, and a decoder's error position must not tell the worlds apart)
+        spots = [i for i, ch in enumerate(like) if ord(ch) > 127] if like and len(like) == n else r.sample(range(1, n - 1), 2)
+        for i in spots:
             base[i] = r.choice("\xe4\xf6\xfc\xe9\xf1\xdf")
         base[0], base[-1] = r.choice(GZ), r.choice(GZ)
         return "".join(base)
